@@ -13,6 +13,11 @@ DRAIN = r"(alloc::vec::\{impl Vec<T,A>\}::(clear|truncate|drain|set_len)$|core::
 
 
 def run(F, R, ctx):
+    _run(F, R, ctx)
+    compaction_rule(F, R)
+
+
+def _run(F, R, ctx):
     R.rule("C19.a", "Heap::mark: every path from pushing roots onto Heap.mark_and_sweep_queue to the return drains that "
                     "vector: either the sequential visitor (pop until empty) runs, or the queue is cleared after the "
                     "parallel marker borrowed it")
@@ -126,3 +131,71 @@ def run(F, R, ctx):
         R.inst("C19.e", "%s / merge precedes the collection decision" % fn.short(), ok,
                "%s runs a weak/full collection on a path that has not merged the deferred decrements first" % fn.short(),
                fn.loc(), sample=True)
+
+
+def compaction_rule(F, R):
+    from . import c07
+    R.rule("C19.h", "a slot list that has grown RESET_LIMIT times is compacted, whatever else holds: in every collection routine "
+                    "that chooses between FreeList::compact and FreeList::grow after a full sweep, some outcome of a test computed "
+                    "from FreeList.grow_count (and constants) only leads to compact with no way round it to grow — further "
+                    "conditions may add compactions, not veto one. grow() doubles the slot list after "
+                    "every full collection and compact() is the only operation that shrinks it, so any further condition on "
+                    "compaction lets the list of a program with a small live set grow with the total number of objects ever "
+                    "allocated")
+    n = 0
+    for name, fn in sorted(F.fns.items()):
+        if not name.startswith("steel::values::closed::"):
+            continue
+        comp = fn.call_blocks(r"FreeList<T>\}::compact$")
+        grow = fn.call_blocks(r"FreeList<T>\}::grow$")
+        if not comp or not grow:
+            continue
+        maps = c07._backward(fn)
+        dom = fn.dominators()
+        for g in grow:
+            for c in comp:
+                common = [b for b in dom[g] if b in dom[c]]
+                if not common:
+                    continue
+                # decision switches: dominated by the last common dominator, one side reaches compact, another reaches grow
+                # without compact
+                bad = []
+                ndec = 0
+                gc_switches = []
+                others = []
+                for b, blk in enumerate(fn.blocks):
+                    if blk["k"] != "switch" or blk.get("c"):
+                        continue
+                    succ = fn.succ(b)
+                    to_c = [s_ for s_ in succ if c in fn.reachable_from([s_], avoid=[g])]
+                    to_g = [s_ for s_ in succ if g in fn.reachable_from([s_], avoid=[c])]
+                    if not to_c or not to_g or set(to_c) == set(to_g) and len(set(succ)) == 1:
+                        continue
+                    if not (set(to_g) - set(to_c)) and not (set(to_c) - set(to_g)):
+                        continue  # both sides still undecided: not a separating branch
+                    ndec += 1
+                    loc = re.match(r"_\d+", blk.get("place", "").strip("()*"))
+                    org = c07._origins(fn, loc.group(0), maps) if loc else set()
+                    reads_gc = any(re.search(r"\.grow_count\b", e[2]) for bb in fn.blocks for e in bb["e"]
+                                   if e[0] == "mv" and e[1] in org)
+                    through_call = [maps[2][o.split(".")[0]]["callee"] for o in org if o.split(".")[0] in maps[2]]
+                    if reads_gc and not through_call:
+                        gc_switches.append((b, to_c))
+                    else:
+                        others.append((b, blk.get("line"), [lib.short_name(x) for x in through_call][:2]))
+                # some outcome of a grow_count test must force compaction: from that edge compact is reachable and grow is
+                # not reachable without passing compact
+                forcing = False
+                for sg, sg_to_c in gc_switches:
+                    for s_ in sg_to_c:
+                        if g not in fn.reachable_from([s_], avoid=[c]):
+                            forcing = True
+                if not forcing:
+                    bad = [(line, calls) for _, line, calls in others] or [("?", ["no grow_count test forces compaction"])]
+                n += 1
+                R.inst("C19.h", "%s / compact-or-grow is decided by grow_count alone" % fn.short(), ndec >= 1 and not bad,
+                       "%s: the choice between compacting and growing the slot list also depends on %s: once the condition is "
+                       "false with grow_count above the limit the list is doubled after every full collection and never "
+                       "shrunk, so memory grows with the number of (cyclic) objects ever allocated although the reachable set "
+                       "is bounded" % (fn.short(), bad[:2]), fn.loc(fn.blocks[c].get("line")), sample={"decisions": ndec})
+    R.floor("C19.h", "compact-or-grow decisions", n, 3)
